@@ -83,12 +83,23 @@ impl<'b, 'tx> Cursor<'b, 'tx> {
     /// Returns whether or not the key exists in the bucket.
     pub fn seek<T: AsRef<[u8]>>(&mut self, key: T) -> bool {
         self.next_called = false;
-        let mut b = self.bucket.borrow_mut();
-        if b.deleted {
-            panic!("Cannot seek cursor on a deleted bucket.");
+        let exists = {
+            let mut b = self.bucket.borrow_mut();
+            if b.deleted {
+                panic!("Cannot seek cursor on a deleted bucket.");
+            }
+            let (exists, stack) = search(key.as_ref(), b.meta.root_page, &mut b);
+            self.stack = stack;
+            exists
+        };
+        // If we landed on a leaf that this transaction has emptied,
+        // move on to the next entry (if there is one).
+        if !exists && self.stack.len() > 1 && self.current().is_none() {
+            self.next_called = true;
+            if self.next().is_some() {
+                self.next_called = false;
+            }
         }
-        let (exists, stack) = search(key.as_ref(), b.meta.root_page, &mut b);
-        self.stack = stack;
         exists
     }
 
@@ -102,6 +113,10 @@ impl<'b, 'tx> Cursor<'b, 'tx> {
         match self.stack.last() {
             Some(e) => {
                 let n = b.page_node(e.id);
+                if !n.leaf() {
+                    // an exhausted cursor is left pointing at a branch
+                    return None;
+                }
                 n.val(e.index).map(|data| data.into())
             }
             None => None,
@@ -170,33 +185,40 @@ impl<'b, 'tx> Iterator for Cursor<'b, 'tx> {
     type Item = Data<'b, 'tx>;
 
     fn next(&mut self) -> Option<Self::Item> {
-        if self.stack.is_empty() {
-            self.seek_first();
-        } else if self.next_called {
-            loop {
-                {
-                    let b = self.bucket.borrow();
-                    if b.deleted {
-                        panic!("Cannot get data from a deleted bucket.");
-                    }
-                    let elem = self.stack.last_mut().unwrap();
-                    let page_node = b.page_node(elem.id);
-                    if elem.index + 1 >= page_node.len() {
-                        if self.stack.len() == 1 {
-                            return None;
-                        }
-                        self.stack.pop();
-                        continue;
-                    } else {
-                        elem.index += 1;
-                    }
-                }
+        loop {
+            if self.stack.is_empty() {
                 self.seek_first();
-                break;
+            } else if self.next_called {
+                loop {
+                    {
+                        let b = self.bucket.borrow();
+                        if b.deleted {
+                            panic!("Cannot get data from a deleted bucket.");
+                        }
+                        let elem = self.stack.last_mut().unwrap();
+                        let page_node = b.page_node(elem.id);
+                        if elem.index + 1 >= page_node.len() {
+                            if self.stack.len() == 1 {
+                                return None;
+                            }
+                            self.stack.pop();
+                            continue;
+                        } else {
+                            elem.index += 1;
+                        }
+                    }
+                    self.seek_first();
+                    break;
+                }
+            }
+            self.next_called = true;
+            let current = self.current();
+            // A leaf below the root that holds nothing was emptied by this
+            // transaction (it is only merged away at commit): skip over it.
+            if current.is_some() || self.stack.len() <= 1 {
+                return current;
             }
         }
-        self.next_called = true;
-        self.current()
     }
 }
 
